@@ -693,6 +693,33 @@ def rule_sec_prefix(ctx: Ctx, rep: Report) -> None:
     rep.floor(rule, 1)
 
 
+LOOSE = ("Octets", "Integer", "String", "PubKey", "PrvKey", "BinaryData", "Key")
+
+
+def rule_raw_argument(ctx: Ctx, rep: Report) -> None:
+    """C04.raw_argument: the library's loose argument types (Octets = bytes or
+    hex text, Integer = int or octets, ...) are its own: the Python arm
+    normalises them, libsecp256k1 takes bytes. A parameter of such a type
+    reaches a bindings call only after it was rebound to its converted form
+    on every path -- handed over raw, a hex-string hash that the Python arm
+    verifies is a TypeError on the other arm."""
+    rule = "C04.raw_argument"
+    n = 0
+    for fi, call in _bindings_calls(ctx):
+        a = fi.node.args
+        ann = {p_.arg: str(norm(p_.annotation)) for p_ in a.posonlyargs + a.args + a.kwonlyargs if p_.annotation is not None}
+        g = ctx.cfg(fi)
+        for x in list(call.args) + [k.value for k in call.keywords]:
+            if not (isinstance(x, ast.Name) and x.id in ann and any(w in ann[x.id] for w in LOOSE)):
+                continue
+            n += 1
+            binds = [s_ for s_ in own_nodes(fi.node) if isinstance(s_, ast.Assign) and any(isinstance(t, ast.Name) and t.id == x.id for t in s_.targets) and isinstance(s_.value, (ast.Call, ast.IfExp))]
+            ok = bool(binds) and g.path_avoiding(g.nodes_containing(call), [i for b_ in binds for i in g.nodes_containing(b_)]) is None
+            rep.ob(rule, f"{fi.qualname}:{norm(call.func)}({x.id})", ok, fi.where(call), f"`{x.id}` is rebound to its converted form before the call" if ok else
+                   f"the parameter `{x.id}: {ann[x.id]}` reaches the bindings as the caller spelled it: a spelling the Python arm accepts (hex text, an int) is a TypeError / another value here")
+    rep.floor(rule, 6)
+
+
 def rule_predicate_args(ctx: Ctx, rep: Report) -> None:
     """C04.predicate_args: the predicate is asked with the hash function wherever
     one is in scope, and a class that keeps a token decides its arm once."""
@@ -721,7 +748,38 @@ def _self_stores_of(m: FuncInfo) -> set[str]:
     return {x.attr for x in own_nodes(m.node) if isinstance(x, ast.Attribute) and isinstance(x.ctx, ast.Store) and isinstance(x.value, ast.Name) and x.value.id == "self"}
 
 
+def rule_one_comparator_(ctx: Ctx, rep: Report) -> None:
+    """C04.one_comparator: the engine normalises a high s before either arm verifies; at s = n // 2 a non-strict test makes the arms disagree (C02.one_comparator, reported here too)."""
+    from rules import C02
+    tmp = Report("C02", rep.tier)
+    tmp.quiet = True
+    C02.rule_one_comparator(ctx, tmp)
+    for o in tmp.obs:
+        rep.ob("C04.one_comparator", o.instance, o.held, o.site, o.detail)
+    rep.floor("C04.one_comparator", 5)
+
+
+def rule_taproot_python_arm(ctx: Ctx, rep: Report) -> None:
+    """C04.taproot_python_arm: the Python arm of the taproot tweak does what
+    secp256k1_xonly_pubkey_tweak_add does -- lifts the internal key to even y,
+    adds t*G, answers x and parity (C12.shapes' rows for _tweaked_pubkey /
+    _tweaked_prvkey, reported here: an arm that skips the lift answers another
+    output key than the bindings for every odd-y internal key)."""
+    from rules import C12
+    tmp = Report("C12", rep.tier)
+    tmp.quiet = True
+    C12.rule_shapes(ctx, tmp)
+    n = 0
+    for o in tmp.obs:
+        if o.instance.startswith(("pubkey:", "prvkey:")):
+            n += 1
+            rep.ob("C04.taproot_python_arm", o.instance, o.held, o.site, o.detail)
+    rep.floor("C04.taproot_python_arm", 3)
+
+
 RULES = [
+    ("C04.taproot_python_arm", rule_taproot_python_arm),
+    ("C04.one_comparator", rule_one_comparator_),
     ("C04.single_door", rule_single_door),
     ("C04.flag_owner", rule_flag_owner),
     ("C04.guarded", rule_guarded),
@@ -731,9 +789,12 @@ RULES = [
     ("C04.predicate_args", rule_predicate_args),
     ("C04.verification_class", rule_verification_failure_class),
     ("C04.sec_prefix", rule_sec_prefix),
+    ("C04.raw_argument", rule_raw_argument),
 ]
 
 CONTROLS = [
+    {"rule": "C04.raw_argument", "name": "the delegated ECDSA verify is handed the hash as the caller spelled it", "module": "btclib.ecc.dsa",
+     "edit": lambda ctx: M.sub_expr(ctx, "btclib.ecc.dsa.assert_as_valid_", lambda n: isinstance(n, ast.Name) and n.id == "msg_hash_bytes" and isinstance(parent(n), ast.Call) and "verify" in norm(parent(n).func), "msg_hash")},
     {"rule": "C04.sec_prefix", "name": "the taproot tweak hands a hybrid key to the bindings (F17)", "module": "btclib.script.taproot",
      "edit": lambda ctx: M.drop_if(ctx, "btclib.script.taproot._tweaked_pubkey", lambda n: "pub_key.sec[0] not in" in norm(n.test))},
     {"rule": "C04.verification_class", "name": "an infinite K is asked for its y (F15)", "module": "btclib.ecc.ssa",
